@@ -538,3 +538,66 @@ Definition c05_session_check2 (c : c05_session_case2) : bool :=
 Definition c05_validate_show2 (c : c05_validate_case2) := c05_validate_show (fst c).
 Definition c05_hist_show2 (c : c05_hist_case2) := c05_hist_show (fst c).
 Definition c05_session_show2 (c : c05_session_case2) := c05_session_show (fst c).
+
+(* ================================================================================================ *)
+(* Round 7: TWO frames created from ONE rows argument (the same, still empty, collection object - or   *)
+(* the same list of dictionaries) and appended to in any interleaving.  `self._rows = rows or []`      *)
+(* (dataframe.py:89) gives every frame made from an empty collection a list of its own, and the        *)
+(* dictionaries form always builds a new list (dataframe.py:84), so the two frames are separate         *)
+(* values: an append addresses one frame and leaves the other (and the caller's collection) as it was. *)
+
+Definition twin_step (fs : frame * frame) (x : bool * entry) : (frame * frame) * aout :=
+  let '(f0, f1) := fs in
+  let '(b, e) := x in
+  if b then (let '(g, a) := append f1 e in ((f0, g), a))
+  else (let '(g, a) := append f0 e in ((g, f1), a)).
+
+Fixpoint twin_run (fs : frame * frame) (xs : list (bool * entry)) : (frame * frame) * list aout :=
+  match xs with
+  | [] => (fs, [])
+  | x :: rest =>
+      let '(fs1, o) := twin_step fs x in
+      let '(fs2, os) := twin_run fs1 rest in (fs2, o :: os)
+  end.
+
+(* the entries addressed to frame b, in order *)
+Definition twin_sel (b : bool) (xs : list (bool * entry)) : list entry :=
+  map snd (filter (fun x => Bool.eqb (fst x) b) xs).
+
+(* the creation forms for which /repo gives each frame a row store of its own: an EMPTY rows collection
+   (a non-empty list is adopted as the store itself - two frames made from it share it; not generated,
+   see notes/C05.md round 7) or dictionaries *)
+Definition init_fresh (i : init) : bool :=
+  match i with
+  | IRows _ [] | INames _ [] | IDicts _ => true
+  | _ => false
+  end.
+
+(* observed after one append: outcome, state of frame 0, state of frame 1, the caller's rows collection *)
+Definition twin_obs : Type := (oout * (list row * bool * bool) * (list row * bool * bool) * list row)%type.
+
+Fixpoint twin_match (fs : frame * frame) (caller : list row) (xs : list (bool * entry)) (obs : list twin_obs) : bool :=
+  match xs, obs with
+  | [], [] => true
+  | x :: xs', (o, s0, s1, cr) :: obs' =>
+      let '(fs1, a) := twin_step fs x in
+      verdict_matches (aout_verdict a) o && state_matches (fst fs1) s0 && state_matches (snd fs1) s1
+      && rows_eqb cr caller && twin_match fs1 caller xs' obs'
+  | _, _ => false
+  end.
+
+(* a case: (the one creation argument, (addressed frame, entry) list, observed initial states of both frames,
+   observations per append, every outcome read a second time at the end) *)
+Definition c05_twin_case : Type :=
+  (init * list (bool * entry) * ((list row * bool * bool) * (list row * bool * bool)) * list twin_obs * list oout)%type.
+
+Definition c05_twin_check (c : c05_twin_case) : bool :=
+  let '(i, xs, (o0, o1), obs, late) := c in
+  let f := init_frame i in
+  init_fresh i && state_matches f o0 && state_matches f o1
+  && twin_match (f, f) [] xs obs && aouts_match (snd (twin_run (f, f) xs)) late.
+
+Definition c05_twin_show (c : c05_twin_case) :=
+  let '(i, xs, _, _, _) := c in
+  let r := twin_run (init_frame i, init_frame i) xs in
+  (frows (fst (fst r)), frows (snd (fst r)), snd r).
